@@ -17,9 +17,17 @@ namespace
   std::vector<Motion> cartesian_motions(bool thorough)
   {
     std::vector<Motion> m;
-    const std::vector<double> angles = thorough ? std::vector<double>{0, 90, 180, 270, 30, 45, 123.456, -60, 1e-3, 359.5} : std::vector<double>{0, 90, 180, 270, 30, 45, 123.456};
+    std::vector<double> angles = {0, 90, 180, 270, 30, 45, 123.456};
+    if (thorough)
+      {
+        // every 15 degrees plus a few irrational-looking and near-degenerate ones
+        angles = {0, 90, 180, 270};
+        for (int a = 15; a < 360; a += 15) if (a % 90 != 0) angles.push_back(a);
+        for (double a : {123.456, -60.0, 1e-3, 359.5, 89.999, 0.5, 271.3, 33.3333}) angles.push_back(a);
+      }
     const std::vector<std::array<double,2>> tr = thorough
-                                                 ? std::vector<std::array<double,2>>{{{0,0}},{{1e5,0}},{{-1e5,0}},{{0,1e5}},{{0,-1e5}},{{1e7,0}},{{-1e7,1e7}},{{0,-1e7}},{{12345.678,-98765.4321}},{{3e5,-7e5}},{{-1e7,-1e7}},{{5e6,2.5e6}}}
+                                                 ? std::vector<std::array<double,2>>{{{0,0}},{{1e5,0}},{{-1e5,0}},{{0,1e5}},{{0,-1e5}},{{1e7,0}},{{-1e7,1e7}},{{0,-1e7}},{{12345.678,-98765.4321}},{{3e5,-7e5}},{{-1e7,-1e7}},{{5e6,2.5e6}},
+                                                                                     {{0.5e5,0.5e5}},{{-3.5e5,2e5}},{{1e8,-1e8}},{{-7.77e6,3.33e6}},{{1e3,1e3}},{{-2.5e5,-2.5e5}}}
                                                  : std::vector<std::array<double,2>>{{{0,0}},{{1e5,0}},{{0,-1e5}},{{1e7,0}},{{-1e7,1e7}},{{12345.678,-98765.4321}},{{3e5,-7e5}}};
     for (double a : angles) for (auto &t : tr)
         {
@@ -231,7 +239,14 @@ namespace
   // spherical: common longitude offset; query longitudes L and L +- 360
   std::vector<double> offsets(bool thorough)
   {
-    if (thorough) return {10, -10, 45, 90, -90, 135, 170, 174.5, 175, 176, 178, 180, 181.5, 185, 190, -170, -175, -178, -180, -185, 270, 300, 339, -270, -300, -339, 0.5, 359 - 20};
+    if (thorough)
+      {
+        // every 7.5 degrees over the admissible range (the dip point of the slab sits 20 units east of the world: |offset| <= 339), finer around +-180
+        std::vector<double> o;
+        for (double a = -337.5; a <= 337.5; a += 7.5) if (a != 0) o.push_back(a);
+        for (double a : {174.5, 176.0, 178.0, 179.5, 181.5, 183.0, 185.0, -174.5, -176.0, -178.0, -179.5, -181.5, -183.0, -185.0, 339.0, -339.0, 0.5, -0.5}) o.push_back(a);
+        return o;
+      }
     return {10, -10, 90, -90, 170, 175, 178, 180, 185, -175, -180, 300, -300, 339, -339};
   }
 
@@ -331,7 +346,7 @@ int main(int argc, char **argv)
     s[0].name = "cartesian";
     s[0].n = motions.size() * N_BASES;
     s[0].run = [](uint64_t i, Ctx &c) { run_cartesian(motions, i, c); };
-    s[0].bound = std::to_string(motions.size()) + " motions (" + (th ? "10 angles x 12 translations" : "7 angles x 7 translations") + " minus identity) x 6 base worlds x " + std::to_string(probes(false, false).size()) + "+ 3-D probes and 54 2-D probes";
+    s[0].bound = std::to_string(motions.size()) + " motions (" + (th ? "32 angles x 18 translations" : "7 angles x 7 translations") + " minus identity) x 6 base worlds x " + std::to_string(probes(false, false).size()) + "+ 3-D probes and 54 2-D probes";
     s[1].name = "spherical";
     s[1].n = (offs.size() + 1) * N_BASES;
     s[1].run = [](uint64_t i, Ctx &c) { run_spherical(offs, i, c); };
